@@ -73,6 +73,7 @@ type local struct {
 	e, n   int64
 	cls    [5]int64
 	reused *hostsfile.Record // one Record value parsed into again and again
+	prep   int
 }
 
 func c07Case(r *mon.Run, l *local, line string) {
@@ -93,9 +94,30 @@ func c07Case(r *mon.Run, l *local, line string) {
 		r.Violation("c07:"+mon.Q(line), fmt.Sprintf("Record.UnmarshalText(%s) [reference class %s]: %s", mon.Q(line), clsNames[rr.cls], w), map[string]any{"line": line})
 		return
 	}
-	// the same Record value used for line after line must end up exactly like a fresh one
+	// the record must not alias the caller's buffer: hosts-file readers reuse their line buffer
+	for i := range data {
+		data[i] = 'X'
+	}
+	if w := judge(rec, err, rr); w != "" {
+		r.Violation("c07-alias:"+mon.Q(line), fmt.Sprintf("Record.UnmarshalText(%s): after the caller overwrote its line buffer the record changed: %s", mon.Q(line), w), map[string]any{"line": line})
+		return
+	}
+	copy(data, orig)
+	// the same Record value used for line after line must end up exactly like a fresh one, whatever the caller
+	// left in its Names (kept, truncated to keep the storage, pre-sized, holding stale names)
 	if l.reused == nil {
 		l.reused = &hostsfile.Record{}
+	}
+	l.prep++
+	switch l.prep % 5 {
+	case 1:
+		l.reused.Names = l.reused.Names[:0]
+	case 2:
+		l.reused.Names = make([]string, 0, 8)
+	case 3:
+		l.reused.Names = append(make([]string, 0, 5), "stale.example", "stale2.example")
+	case 4:
+		l.reused.Names = make([]string, 1, 2)
 	}
 	l.e++
 	rerr := l.reused.UnmarshalText(data)
@@ -434,6 +456,12 @@ func runParse(c parseCase) (what string, evals int) {
 func buildInput(rng *rand.Rand, lines []string) string {
 	n := rng.IntN(7)
 	var sb strings.Builder
+	// what editors and other systems put in front of a text file: the parser has no special case for any of
+	// it, so it belongs to the first line
+	if rng.IntN(6) == 0 {
+		heads := []string{"\xef\xbb\xbf", "\xef\xbb", "\xff\xfe", "\xfe\xff", "\x00", "\xef\xbb\xbf\xef\xbb\xbf", "\xef\xbb\xbf\n", "\xef\xbb\xbf#", "\ufeff ", "#!"}
+		sb.WriteString(heads[rng.IntN(len(heads))])
+	}
 	for i := 0; i < n; i++ {
 		switch rng.IntN(10) {
 		case 0:
@@ -543,7 +571,8 @@ func TestParse(t *testing.T) {
 	r.Sample(parseCase{Input: "1.2.3.4 host.one\r\r\n\n# c\n::1 localhost", Frag: fZeroReads, Buf: 1, Named: true, Handle: true})
 	r.Note("fragmentations", fragNames)
 	// every buffer size x every fragmentation on a fixed corpus, exhaustively
-	corpus := []string{"", "\n", "\r\n", "1.2.3.4 a", "1.2.3.4 a\n", "1.2.3.4 a\r\n::1 b\r\n", "x\n\n\ny", "1.2.3.4 a\r", "\r", "a\rb\n", "1.2.3.4 a\n\r\n\r\r\n2.3.4.5 b", "#\n#\n", strings.Repeat("1.2.3.4 h\n", 50)}
+	corpus := []string{"", "\n", "\r\n", "1.2.3.4 a", "1.2.3.4 a\n", "1.2.3.4 a\r\n::1 b\r\n", "x\n\n\ny", "1.2.3.4 a\r", "\r", "a\rb\n", "1.2.3.4 a\n\r\n\r\r\n2.3.4.5 b", "#\n#\n", strings.Repeat("1.2.3.4 h\n", 50),
+		"\xef\xbb\xbf1.2.3.4 a\n::1 b\n", "\xef\xbb\xbf", "\xef\xbb\xbf\n1.2.3.4 a", "\xef\xbb\xbf# c\n1.2.3.4 a\n", "\xff\xfe1.2.3.4 a\n"}
 	var e int64
 	for _, in := range corpus {
 		for frag := 0; frag < nFrag; frag++ {
